@@ -16,7 +16,7 @@ BIG = 16384  # 4 samples of the 4096-byte type
 # label -> property
 LABELS = {
     "C08": {"panic", "err", "prefix", "final_out", "unsettled", "constructor"},
-    "C09": {"window", "leak", "spin", "probe", "misdirected", "satisfied_wait", "close_verdict", "verdict_side"},
+    "C09": {"window", "leak", "spin", "probe", "misdirected", "satisfied_wait", "close_verdict", "verdict_side", "eof_premature"},
     "C12": {"tags_ref", "tagmap", "tag_value", "fn_tags"},
     "C10": {"fn_out", "fn_tags", "panic", "err", "prefix", "final_out", "unsettled", "constructor"},
     "C19": {"synclaw", "eof", "fn_out", "fn_tags", "panic", "prefix", "final_out", "window", "leak", "spin", "probe", "misdirected", "satisfied_wait", "close_verdict", "tags_ref", "tagmap", "unsettled", "constructor"},
@@ -167,6 +167,17 @@ def block_table(thorough):
     # so that the data seeds of the entries above do not move)
     t += [B("Hasher", {}, "bytes", 300, extra={"drop_flush": True}),
           B("Hasher", {}, "bytes", 5000, extra={"drop_flush": True})]
+    # input ends while the output stream is full: what the block still holds must come out
+    # before its eof() turns true (MTGraph retires a block on eof() after a wait)
+    held = []
+    for _ in range(12):
+        held += [{"op": "feed", "i": 1, "k": 1 << 20}, {"op": "work"}, {"op": "work"}]
+    held += [{"op": "close_if_done", "i": 1}, {"op": "work"}, {"op": "work"}]
+    t += [B("FftFilterFloat", {"taps": [1, 0, 2, 1, 1]}, "small", 1500, extra={"extra_sched": held}),
+          B("FftFilter", {"taps": [1, 0, 2, 1, 1]}, "small", 900, extra={"extra_sched": held}),
+          B("RationalResampler<u8>", {"interp": 3, "deci": 1}, "bytes", 2000, extra={"extra_sched": held}),
+          B("Hilbert", {"ntaps": 5}, "small", 1500, extra={"extra_sched": held}),
+          B("VecToStream<u8>", {}, "bytes", 0, extra={"extra_sched": held, "packets": [[7] * 3000, [8] * 2000, [9] * 500]})]
     return t
 
 
@@ -299,7 +310,7 @@ def make_specs(ctx, table, scheds, nrandom, tags, sched_stride, probes_close=Tru
     gid = 0
     for ent in table:
         gid += 1
-        base = {k: v for k, v in ent.items() if k not in ("sched", "minwin", "close_ok")}
+        base = {k: v for k, v in ent.items() if k not in ("sched", "minwin", "close_ok", "extra_sched")}
         base["tags"] = tags if ent["tagmap"]["kind"] != "none" or tags == "none" else "none"
         if ent.get("force_tags"):
             base["tags"] = ent["force_tags"]
@@ -309,6 +320,9 @@ def make_specs(ctx, table, scheds, nrandom, tags, sched_stride, probes_close=Tru
         base["gid"] = gid
         specs.append(dict(base, mode="ref", id=f"{gid}:ref", seed=1))
         k = 0
+        if ent.get("extra_sched"):
+            # a hand-written environment schedule for a situation the enumerated ones do not reach
+            specs.append(dict(base, mode="sched", sched=ent["extra_sched"], id=f"{gid}:x", seed=1, close=True))
         if ent["sched"] and scheds:
             for si in range((gid * 7) % sched_stride, len(scheds), sched_stride):
                 k += 1
